@@ -74,7 +74,18 @@ class PropertyGroup(ABC):
 
         map_attributes(self, **kwargs)
 
-        self.parent.workspace.register(self)
+        try:
+            self.parent.workspace.register(self)
+        except RuntimeError:
+            # the identifier is in use: undo the registration on the parent made above
+            for name in ("_children", "_property_groups"):
+                if getattr(parent, name, None):
+                    setattr(
+                        parent,
+                        name,
+                        [child for child in getattr(parent, name) if child is not self],
+                    )
+            raise
 
     def add_properties(self, data: Data | list[Data | uuid.UUID] | uuid.UUID):
         """
